@@ -588,6 +588,10 @@ func (s *Session) exec(c Call, res *Res) {
 			res.Names = append(res.Names, s.abstractPath(path).Render())
 
 			if err != nil {
+				if action == "ErrSkip" {
+					return fs.SkipDir // skip what cannot be read and go on
+				}
+
 				return err
 			}
 
